@@ -744,7 +744,8 @@ class Cluster:
                 bound = part.lso if iso == 1 else part.hw
                 limit = min(p["max_bytes"], remaining) if v >= 3 else p["max_bytes"]
                 data, upper = self.slice_log(part, off, bound, limit,
-                                             allow_oversize=(v >= 3 and first_nonempty))
+                                             allow_oversize=(v >= 3 and first_nonempty),
+                                             hard_limit=(v < 3))
                 if data:
                     first_nonempty = False
                     remaining = max(0, remaining - len(data))
@@ -758,8 +759,15 @@ class Cluster:
             topics.append({"topic": t["topic"], "partitions": parts})
         return ({"error_code": 0, "session_id": 0, "topics": topics}, nbytes, has_err)
 
-    def slice_log(self, part, off, bound, limit, allow_oversize):
-        """Bytes of the log from the batch containing `off`, below `bound`."""
+    def slice_log(self, part, off, bound, limit, allow_oversize, hard_limit=False):
+        """Bytes of the log from the batch containing `off`, below `bound`.
+
+        Like a broker, the slice is cut by bytes (a trailing partial batch is
+        normal).  Fetch >= v3: the first batch of the first non-empty partition
+        is returned whole even if oversize, and an incomplete *first* batch of
+        any other partition is replaced by an empty record set (ReplicaManager:
+        "consumers can make progress in such cases").  Fetch < v3: the byte
+        limit is hard and an incomplete first batch is returned as is."""
         chunks = []
         size = 0
         upper = off
@@ -781,7 +789,9 @@ class Cluster:
                 upper = st.last_offset + 1
                 self.world.probe("fetch_oversize_first_batch")
                 break
-            if mode == "bytes" and limit - size > 0:
+            if not chunks and not hard_limit:
+                break
+            if (mode == "bytes" or not chunks) and limit - size > 0:
                 chunks.append(st.raw[:limit - size])
                 size = limit
                 self.world.probe("fetch_trailing_partial")
